@@ -1,4 +1,1686 @@
-//! C17 — colrx (stub)
+//! C17 — COLR / CPAL subsetting: correspondence cases + paint-level oracles.
+//!
+//! Real code: `klippa::Plan::new` (colr_closure, remap_indices, remap_palette_indices,
+//! remap_variation_indices, generate_varstore_inner_maps, remap_delta_set_indices) and
+//! `klippa::subset_font` (Colr::subset with every paint format, Cpal::subset, ItemVariationStore /
+//! DeltaSetIndexMap subsetting in variations.rs, the Serializer's object sharing and link resolution).
+//! Model: `lean/FontVerif/Model/SubsetColr.lean`, `SubsetCpal.lean`, `SubsetColrSer.lean`; commands
+//! `c17.colr`, `c17.cpal`, `c17.colrplan`, `c17.palmap`, `c17.cpal.read`.
+//!
+//! correspondence (byte for byte): the whole emitted COLR table and the whole emitted CPAL table of a
+//! `subset_font` run against the model fed with the ORIGINAL table bytes and the plan fields the
+//! subsetters read (through `verif_hooks::plan_view` / `plan_colr_view`); the plan's index maps against
+//! the model fed with the closure sets computed by read-fonts (`Colr::v1_closure` ...).
+//! `dropped` = subset_font Ok without the table, `fail` = Err(SubsetTableError(tag)), `trap` = panic.
+//!
+//! oracles (real code only, subset re-opened with read-fonts / skrifa):
+//!   colr-paint-events-preserved   the callback stream of `skrifa::color::ColorGlyph::paint` for every kept
+//!                                 colour glyph (both formats), at the default location and at variation
+//!                                 locations, with glyph ids mapped and palette indices RESOLVED to the
+//!                                 RGBA of every palette: subset at the new id == original at the old id
+//!   colr-clip-box-preserved       `ColorGlyph::bounding_box` likewise
+//!   cpal-colours-preserved        every retained palette entry has the same colour in every palette;
+//!                                 palette count, types, labels, entry labels preserved
+//!   colr-kept-iff-colour-glyph-kept
+//!   colr-subset-returns-ok        no panic / no Err on well-formed fonts
+//!   colr-resubset-events-unchanged  re-subsetting the subset with the same request changes no event stream
+//!   colr-plan-keys=closure        the key sets of the plan's maps are the read-fonts closure results
 use fv_harness::common::*;
+use read_fonts::collections::IntSet;
+use read_fonts::types::{F2Dot14, GlyphId, Tag};
+use read_fonts::{FontRef, TableProvider};
+use skrifa::color::{Brush, ColorGlyphFormat, ColorPainter, CompositeMode, Transform};
+use skrifa::instance::{LocationRef, Size};
+use skrifa::metrics::BoundingBox;
+use skrifa::MetadataProvider;
+use std::collections::BTreeMap;
 
-pub fn run(_cfg: &Config, _s: &mut Session, _r: &mut Rng) {}
+use super::{build_font, make_plan, Req, Syn, F_NOTDEF_OUTLINE, F_RETAIN_GIDS};
+
+// ---------------------------------------------------------------------------------------------
+// panic location capture
+// ---------------------------------------------------------------------------------------------
+
+static PANIC_FILE: std::sync::Mutex<String> = std::sync::Mutex::new(String::new());
+
+/// like `catch`, but a panic also reports the source file it was raised in
+fn catch_loc<T>(f: impl FnOnce() -> T) -> Result<T, (String, String)> {
+    let prev = std::panic::take_hook();
+    std::panic::set_hook(Box::new(|info| {
+        if let Ok(mut g) = PANIC_FILE.lock() {
+            *g = info.location().map(|l| l.file().to_string()).unwrap_or_default();
+        }
+    }));
+    let r = catch(f);
+    std::panic::set_hook(prev);
+    r.map_err(|m| (m, PANIC_FILE.lock().map(|g| g.clone()).unwrap_or_default()))
+}
+
+// ---------------------------------------------------------------------------------------------
+// byte helpers
+// ---------------------------------------------------------------------------------------------
+
+fn p8(o: &mut Vec<u8>, v: u32) {
+    o.push(v as u8);
+}
+fn p16(o: &mut Vec<u8>, v: u32) {
+    o.extend_from_slice(&(v as u16).to_be_bytes());
+}
+fn p24(o: &mut Vec<u8>, v: u32) {
+    o.extend_from_slice(&v.to_be_bytes()[1..]);
+}
+fn p32(o: &mut Vec<u8>, v: u32) {
+    o.extend_from_slice(&v.to_be_bytes());
+}
+fn set24(o: &mut [u8], pos: usize, v: u32) {
+    o[pos..pos + 3].copy_from_slice(&v.to_be_bytes()[1..]);
+}
+fn set32(o: &mut [u8], pos: usize, v: u32) {
+    o[pos..pos + 4].copy_from_slice(&v.to_be_bytes());
+}
+
+// ---------------------------------------------------------------------------------------------
+// CPAL spec
+// ---------------------------------------------------------------------------------------------
+
+#[derive(Clone, Debug)]
+struct CpalSpec {
+    version: u16,
+    num_entries: u16,
+    /// first colour record index of every palette
+    firsts: Vec<u16>,
+    /// colour records (b, g, r, a)
+    records: Vec<[u8; 4]>,
+    types: Option<Vec<u32>>,
+    labels: Option<Vec<u16>>,
+    entry_labels: Option<Vec<u16>>,
+}
+
+fn cpal_bytes(c: &CpalSpec) -> Vec<u8> {
+    let mut o = vec![];
+    p16(&mut o, c.version as u32);
+    p16(&mut o, c.num_entries as u32);
+    p16(&mut o, c.firsts.len() as u32);
+    p16(&mut o, c.records.len() as u32);
+    let rec_off_pos = o.len();
+    p32(&mut o, 0);
+    for f in &c.firsts {
+        p16(&mut o, *f as u32);
+    }
+    let v1pos = o.len();
+    if c.version >= 1 {
+        p32(&mut o, 0);
+        p32(&mut o, 0);
+        p32(&mut o, 0);
+    }
+    // arrays: types, labels, entry labels first (so that the record array is not first), then records
+    if c.version >= 1 {
+        if let Some(t) = &c.types {
+            let at = o.len() as u32;
+            set32(&mut o, v1pos, at);
+            for v in t {
+                p32(&mut o, *v);
+            }
+        }
+        if let Some(t) = &c.labels {
+            let at = o.len() as u32;
+            set32(&mut o, v1pos + 4, at);
+            for v in t {
+                p16(&mut o, *v as u32);
+            }
+        }
+        if let Some(t) = &c.entry_labels {
+            let at = o.len() as u32;
+            set32(&mut o, v1pos + 8, at);
+            for v in t {
+                p16(&mut o, *v as u32);
+            }
+        }
+    }
+    let at = o.len() as u32;
+    set32(&mut o, rec_off_pos, at);
+    for r in &c.records {
+        o.extend_from_slice(r);
+    }
+    o
+}
+
+/// a random CPAL with `num_entries` entries: palettes that share their records, overlap partially or are disjoint
+fn rand_cpal(r: &mut Rng, num_entries: u16) -> CpalSpec {
+    let npal = r.range(1, 4) as usize;
+    let e = num_entries as usize;
+    let mut firsts: Vec<u16> = vec![];
+    let mut next = 0usize;
+    for i in 0..npal {
+        let kind = if i == 0 { 0 } else { r.below(4) };
+        match kind {
+            1 => firsts.push(*r.pick(&firsts.clone())), // shares all records with an earlier palette
+            2 if e > 1 => {
+                // overlaps the previous palette partially
+                let prev = *firsts.last().unwrap() as usize;
+                let shift = r.range(1, e as i64 - 1) as usize;
+                firsts.push((prev + shift) as u16);
+                next = next.max(prev + shift + e);
+            }
+            _ => {
+                firsts.push(next as u16);
+                next += e;
+            }
+        }
+    }
+    let nrec = firsts.iter().map(|f| *f as usize + e).max().unwrap_or(0) + r.below(3) as usize;
+    let records: Vec<[u8; 4]> = (0..nrec)
+        .map(|i| {
+            if r.chance(1, 6) {
+                [0x10, 0x20, 0x30, 0xff] // repeated colour
+            } else {
+                [r.next() as u8, r.next() as u8, (i * 7) as u8, if r.chance(1, 4) { r.next() as u8 } else { 0xff }]
+            }
+        })
+        .collect();
+    let version = if r.chance(1, 2) { 1 } else { 0 };
+    CpalSpec {
+        version,
+        num_entries,
+        firsts,
+        records,
+        types: if r.chance(2, 3) { Some((0..npal).map(|_| r.below(4) as u32).collect()) } else { None },
+        labels: if r.chance(2, 3) { Some((0..npal).map(|i| if r.chance(1, 4) { 0xFFFF } else { 256 + i as u16 }).collect()) } else { None },
+        entry_labels: if r.chance(2, 3) { Some((0..e).map(|i| if r.chance(1, 5) { 0xFFFF } else { 300 + i as u16 }).collect()) } else { None },
+    }
+}
+
+// ---------------------------------------------------------------------------------------------
+// COLR spec: a pool of paint nodes (children have SMALLER indices; a node may have several parents)
+// ---------------------------------------------------------------------------------------------
+
+#[derive(Clone, Debug)]
+enum PN {
+    ColrLayers { num: u8, first: u32 },
+    Solid { pal: u16, alpha: i16, var: Option<u32> },
+    /// formats 4..9: `kind` 0 linear (6 coords), 1 radial (6), 2 sweep (4)
+    Gradient { kind: u8, line: usize, c: Vec<i16>, var: Option<u32> },
+    Glyph { gid: u16, child: usize },
+    ColrGlyph { gid: u16 },
+    Transform { child: usize, m: [i32; 6], var: Option<u32> },
+    /// formats 14..31 (even = static, odd = variable, then `var` must be Some)
+    Simple { fmt: u8, child: usize, vals: Vec<i16>, var: Option<u32> },
+    Composite { src: usize, mode: u8, backdrop: usize },
+}
+
+#[derive(Clone, Debug)]
+struct Line {
+    extend: u8,
+    is_var: bool,
+    /// (offset, palette index, alpha, var index base)
+    stops: Vec<(i16, u16, i16, u32)>,
+}
+
+#[derive(Clone, Debug)]
+struct ClipBoxSpec {
+    fmt: u8,
+    c: [i16; 4],
+    var: u32,
+}
+
+#[derive(Clone, Debug, Default)]
+struct VarStoreSpec {
+    axis_count: u16,
+    /// region -> axis -> (start, peak, end) as F2Dot14 bits
+    regions: Vec<Vec<(i16, i16, i16)>>,
+    /// subtable: (word delta count incl. LONG_WORDS flag, region indexes, rows)
+    subs: Vec<(u16, Vec<u16>, Vec<Vec<i32>>)>,
+}
+
+#[derive(Clone, Debug, Default)]
+struct ColrSpec {
+    /// force the header version (None: 1 when there is any v1 data)
+    version: Option<u16>,
+    v0: Vec<(u16, Vec<(u16, u16)>)>,
+    v1_base: Vec<(u16, usize)>,
+    layers: Vec<usize>,
+    has_layer_list: bool,
+    clips: Vec<(u16, u16, usize)>,
+    clip_format: u8,
+    boxes: Vec<ClipBoxSpec>,
+    nodes: Vec<PN>,
+    lines: Vec<Line>,
+    store: Option<VarStoreSpec>,
+    /// explicit DeltaSetIndexMap entries (outer << 16 | inner); 0xFFFFFFFF = no variation
+    dsim: Option<Vec<u32>>,
+}
+
+fn simple_nvals(fmt: u8) -> usize {
+    // number of 16-bit scalar fields of formats 14..31
+    match fmt {
+        14 | 15 | 16 | 17 | 28 | 29 => 2,
+        18 | 19 | 30 | 31 => 4,
+        20 | 21 | 24 | 25 => 1,
+        22 | 23 | 26 | 27 => 3,
+        _ => 0,
+    }
+}
+
+fn encode_rows(wdc: u16, ric: usize, rows: &[Vec<i32>]) -> Vec<u8> {
+    let long = wdc & 0x8000 != 0;
+    let wc = (wdc & 0x7fff) as usize;
+    let mut o = vec![];
+    for row in rows {
+        for c in 0..ric {
+            let v = row.get(c).copied().unwrap_or(0);
+            if long {
+                if c < wc {
+                    o.extend_from_slice(&v.to_be_bytes());
+                } else {
+                    o.extend_from_slice(&(v as i16).to_be_bytes());
+                }
+            } else if c < wc {
+                o.extend_from_slice(&(v as i16).to_be_bytes());
+            } else {
+                o.push(v as i8 as u8);
+            }
+        }
+    }
+    o
+}
+
+fn store_bytes(v: &VarStoreSpec) -> Vec<u8> {
+    let mut o = vec![];
+    p16(&mut o, 1);
+    let rl_pos = o.len();
+    p32(&mut o, 0);
+    p16(&mut o, v.subs.len() as u32);
+    let offs_pos = o.len();
+    for _ in &v.subs {
+        p32(&mut o, 0);
+    }
+    // subtables first, region list last
+    for (i, (wdc, ris, rows)) in v.subs.iter().enumerate() {
+        let at = o.len() as u32;
+        set32(&mut o, offs_pos + 4 * i, at);
+        p16(&mut o, rows.len() as u32);
+        p16(&mut o, *wdc as u32);
+        p16(&mut o, ris.len() as u32);
+        for ri in ris {
+            p16(&mut o, *ri as u32);
+        }
+        o.extend_from_slice(&encode_rows(*wdc, ris.len(), rows));
+    }
+    let at = o.len() as u32;
+    set32(&mut o, rl_pos, at);
+    p16(&mut o, v.axis_count as u32);
+    p16(&mut o, v.regions.len() as u32);
+    for reg in &v.regions {
+        for (s, pk, e) in reg {
+            p16(&mut o, *s as u16 as u32);
+            p16(&mut o, *pk as u16 as u32);
+            p16(&mut o, *e as u16 as u32);
+        }
+    }
+    o
+}
+
+fn bit_len(v: u32) -> u32 {
+    32 - v.leading_zeros()
+}
+
+fn dsim_bytes(entries: &[u32]) -> Vec<u8> {
+    let inner_bits = entries.iter().map(|e| bit_len(e & 0xFFFF)).max().unwrap_or(1).max(1);
+    let outer_bits = entries.iter().map(|e| bit_len(e >> 16)).max().unwrap_or(1).max(1);
+    let width = (inner_bits + outer_bits).div_ceil(8);
+    let mut o = vec![];
+    let long = entries.len() > 0xFFFF;
+    p8(&mut o, long as u32);
+    p8(&mut o, ((width - 1) << 4) | (inner_bits - 1));
+    if long {
+        p32(&mut o, entries.len() as u32);
+    } else {
+        p16(&mut o, entries.len() as u32);
+    }
+    for e in entries {
+        let packed = ((e >> 16) << inner_bits) | (e & 0xFFFF);
+        o.extend_from_slice(&packed.to_be_bytes()[4 - width as usize..]);
+    }
+    o
+}
+
+fn node_size(n: &PN) -> usize {
+    match n {
+        PN::ColrLayers { .. } => 6,
+        PN::Solid { var, .. } => 5 + if var.is_some() { 4 } else { 0 },
+        PN::Gradient { kind, var, .. } => (if *kind == 2 { 12 } else { 16 }) + if var.is_some() { 4 } else { 0 },
+        PN::Glyph { .. } => 6,
+        PN::ColrGlyph { .. } => 3,
+        PN::Transform { .. } => 7,
+        PN::Simple { fmt, .. } => 4 + 2 * simple_nvals(*fmt) + if fmt % 2 == 1 { 4 } else { 0 },
+        PN::Composite { .. } => 8,
+    }
+}
+
+/// Serialises the spec.  Paint nodes are laid out in DESCENDING index order (parents before children,
+/// so every 24-bit offset is positive), then the affines, the colour lines, the clip boxes.
+fn colr_bytes(c: &ColrSpec) -> Vec<u8> {
+    let has_v1 = !c.v1_base.is_empty() || c.has_layer_list || !c.clips.is_empty() || c.store.is_some() || c.dsim.is_some();
+    let version = c.version.unwrap_or(has_v1 as u16);
+    let mut o = vec![];
+    p16(&mut o, version as u32);
+    p16(&mut o, c.v0.len() as u32);
+    p32(&mut o, 0);
+    p32(&mut o, 0);
+    let nlayers: usize = c.v0.iter().map(|(_, l)| l.len()).sum();
+    p16(&mut o, nlayers as u32);
+    if version >= 1 {
+        for _ in 0..5 {
+            p32(&mut o, 0);
+        }
+    }
+    if !c.v0.is_empty() {
+        let at = o.len() as u32;
+        set32(&mut o, 4, at);
+        let mut first = 0u32;
+        for (g, l) in &c.v0 {
+            p16(&mut o, *g as u32);
+            p16(&mut o, first);
+            p16(&mut o, l.len() as u32);
+            first += l.len() as u32;
+        }
+        let at = o.len() as u32;
+        set32(&mut o, 8, at);
+        for (_, l) in &c.v0 {
+            for (g, pi) in l {
+                p16(&mut o, *g as u32);
+                p16(&mut o, *pi as u32);
+            }
+        }
+    }
+    if version < 1 {
+        return o;
+    }
+    // lists with placeholder offsets
+    let mut bgl_pos = 0usize;
+    if !c.v1_base.is_empty() {
+        bgl_pos = o.len();
+        set32(&mut o, 14, bgl_pos as u32);
+        p32(&mut o, c.v1_base.len() as u32);
+        for (g, _) in &c.v1_base {
+            p16(&mut o, *g as u32);
+            p32(&mut o, 0);
+        }
+    }
+    let mut ll_pos = 0usize;
+    if c.has_layer_list {
+        ll_pos = o.len();
+        set32(&mut o, 18, ll_pos as u32);
+        p32(&mut o, c.layers.len() as u32);
+        for _ in &c.layers {
+            p32(&mut o, 0);
+        }
+    }
+    let mut cl_pos = 0usize;
+    if !c.clips.is_empty() {
+        cl_pos = o.len();
+        set32(&mut o, 22, cl_pos as u32);
+        p8(&mut o, c.clip_format as u32);
+        p32(&mut o, c.clips.len() as u32);
+        for (s, e, _) in &c.clips {
+            p16(&mut o, *s as u32);
+            p16(&mut o, *e as u32);
+            p24(&mut o, 0);
+        }
+    }
+    // node positions
+    let n = c.nodes.len();
+    let mut pos = vec![0usize; n];
+    let mut at = o.len();
+    for i in (0..n).rev() {
+        pos[i] = at;
+        at += node_size(&c.nodes[i]);
+    }
+    // affines of the Transform nodes
+    let mut affine_pos: BTreeMap<usize, usize> = BTreeMap::new();
+    for i in (0..n).rev() {
+        if let PN::Transform { var, .. } = &c.nodes[i] {
+            affine_pos.insert(i, at);
+            at += 24 + if var.is_some() { 4 } else { 0 };
+        }
+    }
+    let mut line_pos = vec![0usize; c.lines.len()];
+    for (i, l) in c.lines.iter().enumerate() {
+        line_pos[i] = at;
+        at += 3 + l.stops.len() * if l.is_var { 10 } else { 6 };
+    }
+    let mut box_pos = vec![0usize; c.boxes.len()];
+    for (i, b) in c.boxes.iter().enumerate() {
+        box_pos[i] = at;
+        at += if b.fmt == 2 { 13 } else { 9 };
+    }
+    // emit nodes
+    for i in (0..n).rev() {
+        debug_assert_eq!(o.len(), pos[i]);
+        let here = pos[i];
+        let rel = |child: usize| -> u32 { (pos[child] - here) as u32 };
+        match &c.nodes[i] {
+            PN::ColrLayers { num, first } => {
+                p8(&mut o, 1);
+                p8(&mut o, *num as u32);
+                p32(&mut o, *first);
+            }
+            PN::Solid { pal, alpha, var } => {
+                p8(&mut o, if var.is_some() { 3 } else { 2 });
+                p16(&mut o, *pal as u32);
+                p16(&mut o, *alpha as u16 as u32);
+                if let Some(v) = var {
+                    p32(&mut o, *v);
+                }
+            }
+            PN::Gradient { kind, line, c: coords, var } => {
+                p8(&mut o, 4 + 2 * *kind as u32 + var.is_some() as u32);
+                p24(&mut o, (line_pos[*line] - here) as u32);
+                for v in coords {
+                    p16(&mut o, *v as u16 as u32);
+                }
+                if let Some(v) = var {
+                    p32(&mut o, *v);
+                }
+            }
+            PN::Glyph { gid, child } => {
+                p8(&mut o, 10);
+                p24(&mut o, rel(*child));
+                p16(&mut o, *gid as u32);
+            }
+            PN::ColrGlyph { gid } => {
+                p8(&mut o, 11);
+                p16(&mut o, *gid as u32);
+            }
+            PN::Transform { child, var, .. } => {
+                p8(&mut o, if var.is_some() { 13 } else { 12 });
+                p24(&mut o, rel(*child));
+                p24(&mut o, (affine_pos[&i] - here) as u32);
+            }
+            PN::Simple { fmt, child, vals, var } => {
+                p8(&mut o, *fmt as u32);
+                p24(&mut o, rel(*child));
+                for v in vals {
+                    p16(&mut o, *v as u16 as u32);
+                }
+                if fmt % 2 == 1 {
+                    p32(&mut o, var.unwrap_or(0xFFFF_FFFF));
+                }
+            }
+            PN::Composite { src, mode, backdrop } => {
+                p8(&mut o, 32);
+                p24(&mut o, rel(*src));
+                p8(&mut o, *mode as u32);
+                p24(&mut o, rel(*backdrop));
+            }
+        }
+    }
+    for i in (0..n).rev() {
+        if let PN::Transform { m, var, .. } = &c.nodes[i] {
+            for v in m {
+                p32(&mut o, *v as u32);
+            }
+            if let Some(v) = var {
+                p32(&mut o, *v);
+            }
+        }
+    }
+    for l in &c.lines {
+        p8(&mut o, l.extend as u32);
+        p16(&mut o, l.stops.len() as u32);
+        for (off, pal, alpha, var) in &l.stops {
+            p16(&mut o, *off as u16 as u32);
+            p16(&mut o, *pal as u32);
+            p16(&mut o, *alpha as u16 as u32);
+            if l.is_var {
+                p32(&mut o, *var);
+            }
+        }
+    }
+    for b in &c.boxes {
+        p8(&mut o, b.fmt as u32);
+        for v in &b.c {
+            p16(&mut o, *v as u16 as u32);
+        }
+        if b.fmt == 2 {
+            p32(&mut o, b.var);
+        }
+    }
+    // resolve list offsets
+    for (k, (_, node)) in c.v1_base.iter().enumerate() {
+        set32(&mut o, bgl_pos + 4 + 6 * k + 2, (pos[*node] - bgl_pos) as u32);
+    }
+    if c.has_layer_list {
+        for (k, node) in c.layers.iter().enumerate() {
+            set32(&mut o, ll_pos + 4 + 4 * k, (pos[*node] - ll_pos) as u32);
+        }
+    }
+    for (k, (_, _, bx)) in c.clips.iter().enumerate() {
+        set24(&mut o, cl_pos + 5 + 7 * k + 4, (box_pos[*bx] - cl_pos) as u32);
+    }
+    if let Some(d) = &c.dsim {
+        let at = o.len() as u32;
+        set32(&mut o, 26, at);
+        o.extend_from_slice(&dsim_bytes(d));
+    }
+    if let Some(s) = &c.store {
+        let at = o.len() as u32;
+        set32(&mut o, 30, at);
+        o.extend_from_slice(&store_bytes(s));
+    }
+    o
+}
+
+fn fvar_bytes(axis_count: u16) -> Vec<u8> {
+    let mut o = vec![];
+    p16(&mut o, 1);
+    p16(&mut o, 0);
+    p16(&mut o, 16);
+    p16(&mut o, 2);
+    p16(&mut o, axis_count as u32);
+    p16(&mut o, 20);
+    p16(&mut o, 0);
+    p16(&mut o, 4 + 4 * axis_count as u32);
+    for i in 0..axis_count {
+        o.extend_from_slice(&[b'A', b'X', b'0' + (i / 10) as u8, b'0' + (i % 10) as u8]);
+        p32(&mut o, 0);
+        p32(&mut o, 0x0001_0000 * 400);
+        p32(&mut o, 0x0001_0000 * 900);
+        p16(&mut o, 0);
+        p16(&mut o, 256 + i as u32);
+    }
+    o
+}
+
+/// a glyf font with `n` tiny glyphs, a cmap for glyphs 1..90, and the given raw COLR / CPAL tables
+fn syn_font(name: &str, n: usize, colr: Option<Vec<u8>>, cpal: Option<Vec<u8>>, axis_count: u16) -> Vec<u8> {
+    let glyph = |i: usize| -> Vec<u8> {
+        if i % 7 == 6 {
+            return vec![];
+        }
+        let mut g = vec![0, 1, 0, 0, 0, 0, 0, 100, 0, 100, 0, 2, 0, 0];
+        g.extend_from_slice(&[0x37, 0x37, 0x37]);
+        g.extend_from_slice(&[10, 20, (i % 50) as u8 + 1, 5, 30, 7]);
+        g
+    };
+    let sf = Syn {
+        name: name.to_string(),
+        glyphs: (0..n).map(glyph).collect(),
+        adv: (0..n).map(|i| 500 + (i % 7) as u16).collect(),
+        lsb: (0..n).map(|i| (i % 9) as i16).collect(),
+        num_long: n,
+        cmap: (1..n.min(90)).map(|g| (0x40 + g as u32, g as u32)).collect(),
+        long_loca: false,
+        align: 2,
+    };
+    let base = build_font(&sf);
+    let font = FontRef::new(&base).expect("base font");
+    let mut b = write_fonts::FontBuilder::new();
+    if axis_count > 0 {
+        b.add_raw(Tag::new(b"fvar"), fvar_bytes(axis_count));
+    }
+    if let Some(t) = colr {
+        b.add_raw(Tag::new(b"COLR"), t);
+    }
+    if let Some(t) = cpal {
+        b.add_raw(Tag::new(b"CPAL"), t);
+    }
+    b.copy_missing_tables(font);
+    b.build()
+}
+
+// ---------------------------------------------------------------------------------------------
+// random paint graphs
+// ---------------------------------------------------------------------------------------------
+
+struct GenOpts {
+    n_glyphs: usize,
+    num_entries: u16,
+    variable: bool,
+    with_dsim: bool,
+    /// number of variation rows available per subtable (var index bases are drawn below these)
+    rows: Vec<usize>,
+    /// delta-set index count when `with_dsim`
+    dsim_len: usize,
+}
+
+fn rand_pal(r: &mut Rng, o: &GenOpts) -> u16 {
+    if r.chance(1, 9) {
+        0xFFFF
+    } else {
+        r.below(o.num_entries as u64) as u16
+    }
+}
+
+/// a var index base such that `base .. base + n` exists (or "no variation")
+fn rand_var(r: &mut Rng, o: &GenOpts, n: usize) -> u32 {
+    if r.chance(1, 6) {
+        return 0xFFFF_FFFF;
+    }
+    if o.with_dsim {
+        if o.dsim_len < n {
+            return 0xFFFF_FFFF;
+        }
+        // also near the end of the map (the reader clamps to the last entry)
+        if r.chance(1, 8) {
+            return (o.dsim_len - 1) as u32;
+        }
+        return r.below((o.dsim_len - n + 1) as u64) as u32;
+    }
+    let cands: Vec<usize> = (0..o.rows.len()).filter(|s| o.rows[*s] >= n).collect();
+    if cands.is_empty() {
+        return 0xFFFF_FFFF;
+    }
+    let s = *r.pick(&cands);
+    // prefer the subtable boundaries
+    let inner = match r.below(4) {
+        0 => 0,
+        1 => o.rows[s] - n,
+        _ => r.below((o.rows[s] - n + 1) as u64) as usize,
+    };
+    ((s as u32) << 16) | inner as u32
+}
+
+fn rand_i16(r: &mut Rng) -> i16 {
+    match r.below(5) {
+        0 => 0,
+        1 => 0x4000,
+        2 => -0x4000,
+        _ => r.next() as i16,
+    }
+}
+
+fn rand_line(r: &mut Rng, o: &GenOpts, c: &mut ColrSpec, is_var: bool) -> usize {
+    // sometimes reuse an existing line of the same kind
+    let same: Vec<usize> = (0..c.lines.len()).filter(|i| c.lines[*i].is_var == is_var).collect();
+    if !same.is_empty() && r.chance(1, 3) {
+        return *r.pick(&same);
+    }
+    let n = r.range(1, 4) as usize;
+    let mut off = 0i32;
+    let stops = (0..n)
+        .map(|_| {
+            off += r.range(0, 5000) as i32;
+            (off as i16, rand_pal(r, o), if r.chance(1, 2) { 0x4000 } else { r.range(0, 0x4000) as i16 }, if is_var { rand_var(r, o, 2) } else { 0 })
+        })
+        .collect();
+    c.lines.push(Line { extend: *r.pick(&[0u8, 1, 2, 0]), is_var, stops });
+    c.lines.len() - 1
+}
+
+fn rand_leaf(r: &mut Rng, o: &GenOpts, c: &mut ColrSpec) -> usize {
+    let var = o.variable && r.chance(1, 2);
+    let node = match r.below(4) {
+        0 | 1 => PN::Solid {
+            pal: rand_pal(r, o),
+            alpha: if r.chance(1, 2) { 0x4000 } else { r.range(0, 0x4000) as i16 },
+            var: if var { Some(rand_var(r, o, 1)) } else { None },
+        },
+        _ => {
+            let kind = r.below(3) as u8;
+            let line = rand_line(r, o, c, var);
+            let nc = if kind == 2 { 4 } else { 6 };
+            PN::Gradient {
+                kind,
+                line,
+                c: (0..nc).map(|_| r.range(-300, 900) as i16).collect(),
+                var: if var { Some(rand_var(r, o, if kind == 2 { 4 } else { 6 })) } else { None },
+            }
+        }
+    };
+    c.nodes.push(node);
+    c.nodes.len() - 1
+}
+
+/// number of variable fields of the odd formats 15..31
+fn simple_nvar(fmt: u8) -> usize {
+    simple_nvals(fmt)
+}
+
+fn rand_wrap(r: &mut Rng, o: &GenOpts, c: &mut ColrSpec, child: usize) -> usize {
+    let node = match r.below(12) {
+        0 => {
+            let var = o.variable && r.chance(1, 2);
+            PN::Transform {
+                child,
+                m: [0x10000, 0, 0, 0x10000, r.range(-50, 50) as i32 * 0x10000, r.range(-50, 50) as i32 * 0x8000],
+                var: if var { Some(rand_var(r, o, 6)) } else { None },
+            }
+        }
+        _ => {
+            let mut fmt = 14 + 2 * r.below(9) as u8;
+            if o.variable && r.chance(1, 2) {
+                fmt += 1;
+            }
+            let nv = simple_nvals(fmt);
+            PN::Simple {
+                fmt,
+                child,
+                vals: (0..nv).map(|_| rand_i16(r)).collect(),
+                var: if fmt % 2 == 1 { Some(rand_var(r, o, simple_nvar(fmt))) } else { None },
+            }
+        }
+    };
+    c.nodes.push(node);
+    c.nodes.len() - 1
+}
+
+/// builds a random COLR v1 (+ optional v0) spec over glyphs 0..n_glyphs
+fn rand_colr(r: &mut Rng, o: &GenOpts) -> ColrSpec {
+    let mut c = ColrSpec::default();
+    let n = o.n_glyphs as u64;
+    // colour glyph ids: a sorted sample of the glyph ids (never .notdef)
+    let mut ids: Vec<u16> = (1..n as u16).collect();
+    r.shuffle(&mut ids);
+    let n_v1 = r.range(1, (n as i64 / 3).max(2)) as usize;
+    let n_v0 = if r.chance(1, 2) { r.range(1, (n as i64 / 4).max(2)) as usize } else { 0 };
+    let mut v1_ids: Vec<u16> = ids.iter().copied().take(n_v1).collect();
+    // v0 ids: mostly distinct from v1, sometimes overlapping
+    let mut v0_ids: Vec<u16> = ids.iter().copied().skip(if r.chance(1, 4) { n_v1.saturating_sub(1) } else { n_v1 }).take(n_v0).collect();
+    v1_ids.sort();
+    v0_ids.sort();
+    // shape glyphs: usually plain glyphs, now and then a glyph that is itself a colour glyph
+    let plain: Vec<u16> = (0..n as u16).filter(|g| !v1_ids.contains(g) && !v0_ids.contains(g)).collect();
+    let shape = |r: &mut Rng| -> u16 {
+        if plain.is_empty() || r.chance(1, 40) {
+            r.below(n) as u16
+        } else {
+            *r.pick(&plain)
+        }
+    };
+    // v0 records (now and then one without layers)
+    for g in &v0_ids {
+        let lo = if r.chance(1, 12) { 0 } else { 1 };
+        let nl = r.range(lo, 4) as usize;
+        let layers = (0..nl).map(|_| (shape(r), rand_pal(r, o))).collect();
+        c.v0.push((*g, layers));
+    }
+    // a pool of leaves and glyph fills
+    let mut fills: Vec<usize> = vec![];
+    for _ in 0..r.range(3, 10) {
+        let leaf = rand_leaf(r, o, &mut c);
+        let body = if r.chance(1, 3) { rand_wrap(r, o, &mut c, leaf) } else { leaf };
+        c.nodes.push(PN::Glyph { gid: shape(r), child: body });
+        fills.push(c.nodes.len() - 1);
+    }
+    // some duplicates: nodes equal in content to existing ones (object sharing in the serializer)
+    for _ in 0..r.below(3) {
+        let k = *r.pick(&fills);
+        let dup = c.nodes[k].clone();
+        c.nodes.push(dup);
+        fills.push(c.nodes.len() - 1);
+    }
+    // layer list: groups of fills / wrapped fills
+    c.has_layer_list = r.chance(5, 6);
+    let mut layer_groups: Vec<(u32, u8)> = vec![];
+    if c.has_layer_list {
+        for _ in 0..r.range(1, 5) {
+            let first = c.layers.len() as u32;
+            let cnt = r.range(1, 4) as usize;
+            for _ in 0..cnt {
+                let k = *r.pick(&fills);
+                let k = if r.chance(1, 4) { rand_wrap(r, o, &mut c, k) } else { k };
+                c.layers.push(k);
+            }
+            layer_groups.push((first, cnt as u8));
+            // overlapping group sharing the tail of the previous one
+            if cnt > 1 && r.chance(1, 4) {
+                layer_groups.push((first + 1, (cnt - 1) as u8));
+            }
+        }
+        // a few layers nobody refers to
+        for _ in 0..r.below(3) {
+            c.layers.push(*r.pick(&fills));
+        }
+        // nested PaintColrLayers: a layer that is itself a PaintColrLayers over an earlier group
+        if r.chance(1, 3) && !layer_groups.is_empty() {
+            let (f, n) = *r.pick(&layer_groups);
+            c.nodes.push(PN::ColrLayers { num: n, first: f });
+            let inner = c.nodes.len() - 1;
+            let first = c.layers.len() as u32;
+            c.layers.push(inner);
+            c.layers.push(*r.pick(&fills));
+            layer_groups.push((first, 2));
+        }
+    }
+    // roots
+    let mut roots: Vec<usize> = vec![];
+    for (i, g) in v1_ids.iter().enumerate() {
+        let root = match r.below(7) {
+            0 | 1 if !layer_groups.is_empty() => {
+                let (f, n) = *r.pick(&layer_groups);
+                c.nodes.push(PN::ColrLayers { num: n, first: f });
+                c.nodes.len() - 1
+            }
+            2 if i > 0 => {
+                // PaintColrGlyph chain to an earlier colour glyph (sometimes through a transform)
+                c.nodes.push(PN::ColrGlyph { gid: v1_ids[r.below(i as u64) as usize] });
+                let k = c.nodes.len() - 1;
+                if r.chance(1, 2) {
+                    rand_wrap(r, o, &mut c, k)
+                } else {
+                    k
+                }
+            }
+            3 => {
+                let a = *r.pick(&fills);
+                let b = *r.pick(&fills);
+                c.nodes.push(PN::Composite { src: a, mode: r.below(28) as u8, backdrop: b });
+                c.nodes.len() - 1
+            }
+            4 if !roots.is_empty() => *r.pick(&roots), // two base glyphs sharing one paint
+            _ => {
+                let k = *r.pick(&fills);
+                let mut k = k;
+                for _ in 0..r.below(3) {
+                    k = rand_wrap(r, o, &mut c, k);
+                }
+                k
+            }
+        };
+        roots.push(root);
+        c.v1_base.push((*g, root));
+    }
+    // clip list
+    if r.chance(2, 3) {
+        let nb = r.range(1, 3) as usize;
+        for _ in 0..nb {
+            let f2 = o.variable && r.chance(1, 2);
+            c.boxes.push(ClipBoxSpec {
+                fmt: if f2 { 2 } else { 1 },
+                c: [r.range(-100, 0) as i16, r.range(-100, 0) as i16, r.range(1, 900) as i16, r.range(1, 900) as i16],
+                var: if f2 { rand_var(r, o, 4) } else { 0 },
+            });
+        }
+        // duplicate box content (shared by the serializer although distinct in the source)
+        if r.chance(1, 3) {
+            let d = c.boxes[0].clone();
+            c.boxes.push(d);
+        }
+        let mut g = 0u32;
+        while g < n as u32 && c.clips.len() < 6 {
+            let start = g + r.below(3) as u32;
+            let end = (start + r.below(4) as u32).min(n as u32 - 1);
+            if start > end || start >= n as u32 {
+                break;
+            }
+            c.clips.push((start as u16, end as u16, r.below(c.boxes.len() as u64) as usize));
+            g = end + 1 + r.below(3) as u32;
+        }
+        c.clip_format = 1;
+    }
+    c
+}
+
+fn rand_store(r: &mut Rng, axis_count: u16, rows: &[usize]) -> VarStoreSpec {
+    let nreg = r.range(1, 4) as usize;
+    let regions = (0..nreg)
+        .map(|_| {
+            (0..axis_count)
+                .map(|_| match r.below(4) {
+                    0 => (0, 0, 0),
+                    1 => (0, 0x4000, 0x4000),
+                    2 => (-0x4000, -0x4000, 0),
+                    _ => (0, 0x2000, 0x4000),
+                })
+                .collect()
+        })
+        .collect();
+    let subs = rows
+        .iter()
+        .map(|nrows| {
+            let ric = r.range(1, nreg as i64) as usize;
+            let mut ris: Vec<u16> = (0..nreg as u16).collect();
+            r.shuffle(&mut ris);
+            ris.truncate(ric);
+            let wc = r.below(ric as u64 + 1) as u16;
+            let long = r.chance(1, 6);
+            let wdc = wc | if long { 0x8000 } else { 0 };
+            let rws = (0..*nrows)
+                .map(|_| {
+                    (0..ric)
+                        .map(|c| {
+                            if r.chance(1, 4) {
+                                0
+                            } else if long && c < wc as usize {
+                                *r.pick(&[40000i32, -40000, 32768, 100, -3])
+                            } else if long || c < wc as usize {
+                                *r.pick(&[300i32, -300, 32767, -32768, 128, 5])
+                            } else {
+                                r.range(-128, 127) as i32
+                            }
+                        })
+                        .collect()
+                })
+                .collect();
+            (wdc, ris, rws)
+        })
+        .collect();
+    VarStoreSpec { axis_count, regions, subs }
+}
+
+// ---------------------------------------------------------------------------------------------
+// observation: the skrifa paint event stream
+// ---------------------------------------------------------------------------------------------
+
+fn f(v: f32) -> String {
+    format!("{:08x}", v.to_bits())
+}
+
+struct Recorder<'a> {
+    ev: Vec<String>,
+    gmap: &'a dyn Fn(u32) -> String,
+    pal: &'a dyn Fn(u16) -> String,
+}
+
+impl Recorder<'_> {
+    fn brush(&self, b: &Brush<'_>) -> String {
+        let stops = |cs: &[skrifa::color::ColorStop]| -> String {
+            cs.iter().map(|s| format!("{}:{}*{}", f(s.offset), (self.pal)(s.palette_index), f(s.alpha))).collect::<Vec<_>>().join(",")
+        };
+        match b {
+            Brush::Solid { palette_index, alpha } => format!("solid({}*{})", (self.pal)(*palette_index), f(*alpha)),
+            Brush::LinearGradient { p0, p1, color_stops, extend } => {
+                format!("linear({},{},{},{},{:?},[{}])", f(p0.x), f(p0.y), f(p1.x), f(p1.y), extend, stops(color_stops))
+            }
+            Brush::RadialGradient { c0, r0, c1, r1, color_stops, extend } => {
+                format!("radial({},{},{},{},{},{},{:?},[{}])", f(c0.x), f(c0.y), f(*r0), f(c1.x), f(c1.y), f(*r1), extend, stops(color_stops))
+            }
+            Brush::SweepGradient { c0, start_angle, end_angle, color_stops, extend } => {
+                format!("sweep({},{},{},{},{:?},[{}])", f(c0.x), f(c0.y), f(*start_angle), f(*end_angle), extend, stops(color_stops))
+            }
+        }
+    }
+}
+
+impl ColorPainter for Recorder<'_> {
+    fn push_transform(&mut self, t: Transform) {
+        self.ev.push(format!("T({},{},{},{},{},{})", f(t.xx), f(t.yx), f(t.xy), f(t.yy), f(t.dx), f(t.dy)));
+    }
+    fn pop_transform(&mut self) {
+        self.ev.push("t".into());
+    }
+    fn push_clip_glyph(&mut self, glyph_id: GlyphId) {
+        self.ev.push(format!("G({})", (self.gmap)(glyph_id.to_u32())));
+    }
+    fn push_clip_box(&mut self, b: BoundingBox) {
+        self.ev.push(format!("B({},{},{},{})", f(b.x_min), f(b.y_min), f(b.x_max), f(b.y_max)));
+    }
+    fn pop_clip(&mut self) {
+        self.ev.push("c".into());
+    }
+    fn fill(&mut self, brush: Brush<'_>) {
+        let s = self.brush(&brush);
+        self.ev.push(format!("F({s})"));
+    }
+    fn push_layer(&mut self, composite_mode: CompositeMode) {
+        self.ev.push(format!("L({composite_mode:?})"));
+    }
+    fn pop_layer(&mut self) {
+        self.ev.push("l".into());
+    }
+}
+
+/// colours of a palette entry in every palette of the font (`fg` for 0xFFFF)
+fn palette_resolver<'a>(font: &FontRef<'a>) -> impl Fn(u16) -> String + 'a {
+    let cpal = font.cpal().ok();
+    move |idx: u16| -> String {
+        if idx == 0xFFFF {
+            return "fg".into();
+        }
+        let Some(cpal) = &cpal else { return "nocpal".into() };
+        let Some(Ok(recs)) = cpal.color_records_array() else { return "norecords".into() };
+        if idx >= cpal.num_palette_entries() {
+            return "outofrange".into();
+        }
+        cpal.color_record_indices()
+            .iter()
+            .map(|first| match recs.get(first.get() as usize + idx as usize) {
+                Some(c) => format!("{:02x}{:02x}{:02x}{:02x}", c.blue(), c.green(), c.red(), c.alpha()),
+                None => "x".into(),
+            })
+            .collect::<Vec<_>>()
+            .join("/")
+    }
+}
+
+fn axis_count(font: &FontRef) -> usize {
+    font.axes().len()
+}
+
+fn locations(font: &FontRef) -> Vec<Vec<F2Dot14>> {
+    let n = axis_count(font);
+    let mut v = vec![vec![]];
+    if n > 0 {
+        let c = |x: f32| F2Dot14::from_f32(x);
+        v.push((0..n).map(|_| c(1.0)).collect());
+        v.push((0..n).map(|_| c(-1.0)).collect());
+        v.push((0..n).map(|i| c(if i % 2 == 0 { 0.5 } else { -0.25 })).collect());
+        v.push((0..n).map(|i| c(if i % 2 == 0 { -0.75 } else { 1.0 })).collect());
+    }
+    v
+}
+
+/// the event stream of one colour glyph in one format at one location; `None` = not a colour glyph
+fn events(font: &FontRef, gid: u32, fmt: ColorGlyphFormat, loc: &[F2Dot14], gmap: &dyn Fn(u32) -> String, pal: &dyn Fn(u16) -> String) -> Option<String> {
+    let cg = font.color_glyphs().get_with_format(GlyphId::new(gid), fmt)?;
+    let mut rec = Recorder { ev: vec![], gmap, pal };
+    let res = cg.paint(LocationRef::new(loc), &mut rec);
+    let mut s = rec.ev.join(" ");
+    if let Err(e) = res {
+        let d = format!("{e:?}");
+        s.push_str(&format!(" ERR:{}", d.split('(').next().unwrap_or("")));
+    }
+    let bb = cg.bounding_box(LocationRef::new(loc), Size::unscaled());
+    if let Some(b) = bb {
+        s.push_str(&format!(" BB({},{},{},{})", f(b.x_min), f(b.y_min), f(b.x_max), f(b.y_max)));
+    }
+    Some(s)
+}
+
+// ---------------------------------------------------------------------------------------------
+// request lines
+// ---------------------------------------------------------------------------------------------
+
+fn pairs<A: std::fmt::Display, B: std::fmt::Display>(v: &[(A, B)]) -> String {
+    if v.is_empty() {
+        return "-".into();
+    }
+    v.iter().map(|(a, b)| format!("{a} {b}")).collect::<Vec<_>>().join(" ")
+}
+
+fn inner_str(im: &[Vec<u32>]) -> String {
+    let mut parts = vec![im.len().to_string()];
+    for m in im {
+        parts.push(m.len().to_string());
+        parts.extend(m.iter().map(|x| x.to_string()));
+    }
+    parts.join(" ")
+}
+
+fn colr_request(colr: &[u8], pv: &klippa::verif_hooks::PlanView, cv: &klippa::verif_hooks::PlanColrView) -> String {
+    format!(
+        "c17.colr {} G {} M {} P {} L {} V {} I {} D {}",
+        hex(colr),
+        join(&pv.glyphset_colred),
+        pairs(&pv.glyph_map),
+        pairs(&cv.colr_palettes),
+        pairs(&cv.colrv1_layers),
+        pairs(&cv.colr_varidx_delta_map.iter().map(|(k, (n, _))| (*k, *n)).collect::<Vec<_>>()),
+        inner_str(&cv.colr_varstore_inner_maps),
+        pairs(&cv.colr_new_deltaset_idx_varidx_map),
+    )
+}
+
+fn table<'a>(font: &FontRef<'a>, tag: &[u8; 4]) -> Option<&'a [u8]> {
+    font.table_data(Tag::new(tag)).map(|d| d.as_bytes())
+}
+
+struct Shot {
+    pv: klippa::verif_hooks::PlanView,
+    cv: klippa::verif_hooks::PlanColrView,
+    result: Result<Vec<u8>, String>,
+}
+
+fn shoot(font: &FontRef, req: &Req) -> Result<Shot, (String, String)> {
+    catch_loc(|| {
+        let plan = make_plan(font, req);
+        let pv = klippa::verif_hooks::plan_view(&plan);
+        let cv = klippa::verif_hooks::plan_colr_view(&plan);
+        let result = klippa::subset_font(font, &plan).map_err(|e| format!("{e:?}"));
+        Shot { pv, cv, result }
+    })
+}
+
+/// what the read-fonts closure functions collect for the plan's `glyphset_gsub`
+fn closure_sets(font: &FontRef, gsub: &[u32]) -> Option<(Vec<u32>, Vec<u32>, Vec<u16>, Vec<u32>)> {
+    let colr = font.colr().ok()?;
+    let mut g = IntSet::<GlyphId>::empty();
+    for x in gsub {
+        g.insert(GlyphId::new(*x));
+    }
+    let mut colred = IntSet::<GlyphId>::empty();
+    colr.v0_closure_glyphs(&g, &mut colred);
+    let mut layers = IntSet::<u32>::empty();
+    let mut pals = IntSet::<u16>::empty();
+    let mut vars = IntSet::<u32>::empty();
+    // (repeated until the glyph set stops growing: fix 9baf987)
+    loop {
+        let before = colred.len();
+        colr.v1_closure(&mut colred, &mut layers, &mut pals, &mut vars);
+        let cur = colred.clone();
+        colr.v0_closure_glyphs(&cur, &mut colred);
+        if colred.len() == before {
+            break;
+        }
+    }
+    colr.v0_closure_palette_indices(&colred, &mut pals);
+    Some((colred.iter().map(|g| g.to_u32()).collect(), layers.iter().collect(), pals.iter().collect(), vars.iter().collect()))
+}
+
+/// is the well-formedness of the font good enough to demand success (no refusal / panic)?
+#[derive(Clone, Copy, PartialEq)]
+enum Trust {
+    WellFormed,
+    Hostile,
+}
+
+#[allow(clippy::too_many_arguments)]
+fn run_request(s: &mut Session, label: &str, data: &[u8], req: &Req, trust: Trust, corr: bool, resub: bool) {
+    // debugging aid: C17_COLR_FONT=<label> runs only that font's requests, C17_COLR_DUMP=<dir> writes its bytes
+    if let Ok(only) = std::env::var("C17_COLR_FONT") {
+        if only != label {
+            return;
+        }
+        if let Ok(dir) = std::env::var("C17_COLR_DUMP") {
+            let _ = std::fs::write(format!("{dir}/{}.ttf", label.replace([':', '#'], "_")), data);
+        }
+    }
+    let Ok(font) = FontRef::new(data) else { return };
+    let colr_t = table(&font, b"COLR");
+    let cpal_t = table(&font, b"CPAL");
+    let input = format!(
+        "font={label} flags={:#06x} gids=[{}] unicodes=[{}]",
+        req.flags,
+        join(&req.gids),
+        req.unicodes.iter().map(|u| format!("{u:x}")).collect::<Vec<_>>().join(" ")
+    );
+    let shot = shoot(&font, req);
+    // ---- outcome per table
+    let (pv, cv) = match &shot {
+        Ok(sh) => (sh.pv.clone(), sh.cv.clone()),
+        Err(_) => match catch(|| {
+            let plan = make_plan(&font, req);
+            (klippa::verif_hooks::plan_view(&plan), klippa::verif_hooks::plan_colr_view(&plan))
+        }) {
+            Ok(x) => x,
+            Err(_) => {
+                s.count("colr:skip:plan-panic");
+                s.oracle("colr-subset-returns-ok", trust == Trust::Hostile, || input.clone(), || "Plan::new panicked".into());
+                return;
+            }
+        },
+    };
+    let sub_font: Option<&Vec<u8>> = match &shot {
+        Ok(Shot { result: Ok(b), .. }) => Some(b),
+        _ => None,
+    };
+    let outcome = |tag: &[u8; 4], src_file: &str| -> Option<String> {
+        let tname = std::str::from_utf8(&tag[..]).unwrap();
+        match &shot {
+            Err((_, file)) => {
+                if file.ends_with(src_file) {
+                    Some("trap".into())
+                } else {
+                    None
+                }
+            }
+            Ok(Shot { result: Err(e), .. }) => {
+                if e.contains(tname) {
+                    Some("fail".into())
+                } else {
+                    None
+                }
+            }
+            Ok(Shot { result: Ok(sub), .. }) => {
+                let sf = FontRef::new(sub).ok()?;
+                Some(match table(&sf, tag) {
+                    None => "dropped".into(),
+                    Some(t) => format!("ok {}", hex(t)),
+                })
+            }
+        }
+    };
+    if trust == Trust::WellFormed {
+        let ok = matches!(&shot, Ok(Shot { result: Ok(_), .. }));
+        s.oracle("colr-subset-returns-ok", ok, || input.clone(), || match &shot {
+            Err((m, file)) => format!("panic '{m}' in {file}"),
+            Ok(Shot { result: Err(e), .. }) => format!("subset_font returned {e}"),
+            _ => String::new(),
+        });
+    }
+    // ---- correspondence: the plan's maps from the closure sets
+    if let (Some(colr), true) = (colr_t, corr) {
+        if let Some((colred, layers, pals, vars)) = closure_sets(&font, &pv.glyphset_gsub) {
+            // model-independent: the key sets of the plan's maps are the closure results
+            let mut want_colred: Vec<u32> = colred.iter().copied().filter(|g| (*g as usize) < pv.font_num_glyphs).collect();
+            want_colred.sort();
+            let keys_ok = want_colred == pv.glyphset_colred
+                && layers == cv.colrv1_layers.iter().map(|x| x.0).collect::<Vec<_>>()
+                && pals == cv.colr_palettes.iter().map(|x| x.0).collect::<Vec<_>>();
+            s.oracle("colr-plan-keys=closure", keys_ok, || input.clone(), || {
+                format!("colred {:?} vs {:?}; layers {:?} vs {:?}; palettes {:?} vs {:?}", want_colred, pv.glyphset_colred, layers, cv.colrv1_layers, pals, cv.colr_palettes)
+            });
+            s.case(
+                "colr-plan",
+                format!("c17.colrplan {} L {} K {}", hex(colr), join(&layers), join(&vars)),
+                format!(
+                    "L {} V {} I {} D {}",
+                    pairs(&cv.colrv1_layers),
+                    pairs(&cv.colr_varidx_delta_map.iter().map(|(k, (n, _))| (*k, *n)).collect::<Vec<_>>()),
+                    inner_str(&cv.colr_varstore_inner_maps),
+                    pairs(&cv.colr_new_deltaset_idx_varidx_map)
+                ),
+            );
+            s.case("colr-palmap", format!("c17.palmap {}", join(&pals)), pairs(&cv.colr_palettes));
+            s.count(if vars.is_empty() { "colr:plan:no-var-indices" } else if cv.colr_new_deltaset_idx_varidx_map.is_empty() { "colr:plan:var-direct" } else { "colr:plan:var-dsim" });
+        }
+    }
+    // ---- correspondence: COLR table
+    if let (Some(colr), true) = (colr_t, corr) {
+        match outcome(b"COLR", "colr.rs") {
+            Some(real) => {
+                s.count(&format!("colr:res:{}", real.split(' ').next().unwrap_or("")));
+                if let Some(h) = real.strip_prefix("ok ") {
+                    let v = if h.starts_with("0001") { "v1" } else { "v0" };
+                    s.count(&format!("colr:out:{v}"));
+                }
+                s.case("colr-table", colr_request(colr, &pv, &cv), real);
+            }
+            None => s.count("colr:skip:outcome-not-attributable"),
+        }
+    }
+    // ---- correspondence: CPAL table
+    if let (Some(cpal), true) = (cpal_t, corr) {
+        match outcome(b"CPAL", "cpal.rs") {
+            Some(real) => {
+                s.count(&format!("cpal:res:{}", real.split(' ').next().unwrap_or("")));
+                s.case("cpal-table", format!("c17.cpal {} {}", hex(cpal), pairs(&cv.colr_palettes)), real);
+            }
+            None => s.count("cpal:skip:outcome-not-attributable"),
+        }
+    }
+    // ---- oracles on the re-opened subset
+    let Some(sub) = sub_font else {
+        s.count("colr:oracle-skip:no-subset");
+        return;
+    };
+    let Ok(sf) = FontRef::new(sub) else { return };
+    let gm: BTreeMap<u32, u32> = pv.glyph_map.iter().copied().collect();
+    let gmap_o = |g: u32| -> String { gm.get(&g).map(|x| x.to_string()).unwrap_or(format!("unmapped{g}")) };
+    let gmap_s = |g: u32| -> String { g.to_string() };
+    let pal_o = palette_resolver(&font);
+    let pal_s = palette_resolver(&sf);
+    let locs = locations(&font);
+    let mut any_colour_kept = false;
+    let mut sub_streams: Vec<(u32, usize, usize, String)> = vec![];
+    // skrifa reads a variation index of a font WITHOUT DeltaSetIndexMap as (outer 0, inner = low 16 bits)
+    // (FreeType's rule) while klippa / HarfBuzz split it 16/16: with several ItemVariationData and no map the
+    // two readings differ, so the paint streams are then compared at the default location only and the
+    // deltas through `colr-var-deltas-preserved` (16/16 reading)
+    let outer_without_map = font.colr().ok().map(|c| c.var_index_map().is_none()).unwrap_or(false)
+        && cv.colr_varidx_delta_map.iter().any(|(k, _)| *k != 0xFFFF_FFFF && (k >> 16) != 0);
+    if outer_without_map {
+        s.count("colr:events:default-location-only(outer-index-without-map)");
+    }
+    for (old, new) in &pv.glyph_map {
+        // a glyph kept only as a component of a composite glyph is not kept as a colour glyph
+        // (the COLR closure runs over the requested / cmap / COLR-referenced glyphs)
+        if !pv.glyphset_colred.contains(old) {
+            s.count("colr:events-skip:component-only-glyph");
+            continue;
+        }
+        for (fi, fmt) in [ColorGlyphFormat::ColrV1, ColorGlyphFormat::ColrV0].into_iter().enumerate() {
+            for (li, loc) in locs.iter().enumerate() {
+                if li > 0 && outer_without_map {
+                    break;
+                }
+                let eo = catch(|| events(&font, *old, fmt, loc, &gmap_o, &pal_o));
+                let es = catch(|| events(&sf, *new, fmt, loc, &gmap_s, &pal_s));
+                let (Ok(eo), Ok(es)) = (eo, es) else {
+                    s.count("colr:oracle-skip:skrifa-panic");
+                    continue;
+                };
+                if eo.is_some() {
+                    any_colour_kept = true;
+                    s.count(if fi == 0 { "colr:events:v1" } else { "colr:events:v0" });
+                } else if li > 0 {
+                    break;
+                }
+                s.oracle("colr-paint-events-preserved", eo == es, || format!("{input} old={old} new={new} fmt=v{} loc={li}", 1 - fi), || {
+                    format!("original: {}\nsubset:   {}", eo.clone().unwrap_or("<not a colour glyph>".into()), es.clone().unwrap_or("<not a colour glyph>".into()))
+                });
+                if let Some(e) = es {
+                    sub_streams.push((*new, fi, li, e));
+                }
+                if eo.is_none() {
+                    break;
+                }
+            }
+        }
+    }
+    if colr_t.is_some() && font.colr().is_ok() {
+        let has = table(&sf, b"COLR").is_some();
+        s.oracle("colr-kept-iff-colour-glyph-kept", has == any_colour_kept, || input.clone(), || format!("subset has COLR: {has}; a kept glyph is a colour glyph of the original: {any_colour_kept}"));
+    }
+    // ---- variation deltas of every retained variation index (HarfBuzz / klippa reading of the index)
+    if let (Ok(oc), Ok(sc)) = (font.colr(), sf.colr()) {
+        if let Some(Ok(ostore)) = oc.item_variation_store() {
+            let delta = |colr: &read_fonts::tables::colr::Colr, idx: u32, coords: &[F2Dot14]| -> String {
+                if idx == 0xFFFF_FFFF {
+                    return "0".into();
+                }
+                let ix = match colr.var_index_map() {
+                    Some(Ok(m)) => match m.get(idx) {
+                        Ok(d) => d,
+                        Err(_) => return "0".into(),
+                    },
+                    Some(Err(_)) => return "badmap".into(),
+                    None => read_fonts::tables::variations::DeltaSetIndex { outer: (idx >> 16) as u16, inner: idx as u16 },
+                };
+                if ix.outer == 0xFFFF && ix.inner == 0xFFFF {
+                    return "0".into();
+                }
+                match colr.item_variation_store() {
+                    Some(Ok(st)) => match st.compute_float_delta(ix, coords) {
+                        Ok(d) => format!("{d:?}").replace("FloatItemDelta(", "").replace(')', "").replace("0.0", "0").replace("-0", "0"),
+                        Err(_) => "0".into(),
+                    },
+                    _ => "0".into(),
+                }
+            };
+            let nax = ostore.variation_region_list().map(|l| l.axis_count() as usize).unwrap_or(0);
+            let c = |x: f32| F2Dot14::from_f32(x);
+            let coord_sets: Vec<Vec<F2Dot14>> = vec![
+                (0..nax).map(|_| c(1.0)).collect(),
+                (0..nax).map(|_| c(-1.0)).collect(),
+                (0..nax).map(|i| c(if i % 2 == 0 { 0.5 } else { -0.25 })).collect(),
+                (0..nax).map(|i| c(if i % 2 == 0 { -0.75 } else { 1.0 })).collect(),
+            ];
+            let mut bad = vec![];
+            for (old, (new, _)) in &cv.colr_varidx_delta_map {
+                for cs in &coord_sets {
+                    let a = delta(&oc, *old, cs);
+                    let b = delta(&sc, *new, cs);
+                    if a != b {
+                        bad.push(format!("var index {old:#x} -> {new:#x}: delta {a} -> {b}"));
+                    }
+                }
+            }
+            // (a subset downgraded to version 0 has no variable item left: the indices collected from
+            // the ClipList of the original are then unused)
+            if !cv.colr_varidx_delta_map.is_empty() && sc.version() >= 1 {
+                s.oracle("colr-var-deltas-preserved", bad.is_empty(), || input.clone(), || bad.iter().take(4).cloned().collect::<Vec<_>>().join("; "));
+            }
+        }
+    }
+    // ---- CPAL colours (through the plan's palette map)
+    if let (Ok(oc), Some(_)) = (font.cpal(), cpal_t) {
+        let retained: Vec<(u16, u16)> = cv.colr_palettes.iter().copied().filter(|(o, _)| *o != 0xFFFF).collect();
+        match sf.cpal() {
+            Err(_) => {
+                // CPAL may only disappear when no palette entry is retained
+                s.oracle("cpal-colours-preserved", retained.is_empty() || !any_colour_kept, || input.clone(), || format!("subset has no readable CPAL although entries {retained:?} are retained"));
+            }
+            Ok(sc) => {
+                let mut bad = vec![];
+                if sc.num_palettes() != oc.num_palettes() {
+                    bad.push(format!("numPalettes {} -> {}", oc.num_palettes(), sc.num_palettes()));
+                }
+                if sc.num_palette_entries() as usize != retained.len() {
+                    bad.push(format!("numPaletteEntries {} but {} retained", sc.num_palette_entries(), retained.len()));
+                }
+                let col = |c: &read_fonts::tables::cpal::Cpal, p: usize, e: u16| -> Option<[u8; 4]> {
+                    let recs = c.color_records_array()?.ok()?;
+                    let first = c.color_record_indices().get(p)?.get();
+                    let r = recs.get(first as usize + e as usize)?;
+                    Some([r.blue(), r.green(), r.red(), r.alpha()])
+                };
+                for p in 0..oc.num_palettes() as usize {
+                    for (o, n) in &retained {
+                        if *o >= oc.num_palette_entries() {
+                            continue;
+                        }
+                        let a = col(&oc, p, *o);
+                        let b = col(&sc, p, *n);
+                        if a != b {
+                            bad.push(format!("palette {p} entry {o}->{n}: {a:?} -> {b:?}"));
+                        }
+                    }
+                }
+                let types = |c: &read_fonts::tables::cpal::Cpal| c.palette_types_array().and_then(|x| x.ok()).map(|a| a.iter().map(|v| v.get().bits()).collect::<Vec<_>>());
+                let labels = |c: &read_fonts::tables::cpal::Cpal| c.palette_labels_array().and_then(|x| x.ok()).map(|a| a.iter().map(|v| v.get()).collect::<Vec<_>>());
+                let elabels = |c: &read_fonts::tables::cpal::Cpal| c.palette_entry_labels_array().and_then(|x| x.ok()).map(|a| a.iter().map(|v| v.get().to_u16()).collect::<Vec<_>>());
+                if types(&oc) != types(&sc) {
+                    bad.push(format!("palette types {:?} -> {:?}", types(&oc), types(&sc)));
+                }
+                if labels(&oc) != labels(&sc) {
+                    bad.push(format!("palette labels {:?} -> {:?}", labels(&oc), labels(&sc)));
+                }
+                let want_el = elabels(&oc).map(|a| retained.iter().filter_map(|(o, _)| a.get(*o as usize).copied()).collect::<Vec<_>>());
+                if want_el != elabels(&sc) {
+                    bad.push(format!("entry labels want {:?} got {:?}", want_el, elabels(&sc)));
+                }
+                s.oracle("cpal-colours-preserved", bad.is_empty(), || input.clone(), || bad.join("; "));
+            }
+        }
+    }
+    // ---- re-subsetting the subset with the same request
+    if resub && any_colour_kept {
+        let req2 = Req {
+            gids: req.gids.iter().filter_map(|g| gm.get(g).copied()).collect(),
+            unicodes: req.unicodes.clone(),
+            flags: req.flags,
+        };
+        match shoot(&sf, &req2) {
+            Ok(Shot { pv: pv2, result: Ok(sub2), .. }) => {
+                if let Ok(sf2) = FontRef::new(&sub2) {
+                    let gm2: BTreeMap<u32, u32> = pv2.glyph_map.iter().copied().collect();
+                    let pal2 = palette_resolver(&sf2);
+                    let mut bad = vec![];
+                    for (new, fi, li, e1) in &sub_streams {
+                        let Some(new2) = gm2.get(new) else {
+                            bad.push(format!("glyph {new} of the subset not kept by the re-subset"));
+                            continue;
+                        };
+                        let fmt = if *fi == 0 { ColorGlyphFormat::ColrV1 } else { ColorGlyphFormat::ColrV0 };
+                        // the first subset's stream, glyph ids mapped through the second plan
+                        let gmap1 = |g: u32| -> String { gm2.get(&g).map(|x| x.to_string()).unwrap_or(format!("unmapped{g}")) };
+                        let e1m = catch(|| events(&sf, *new, fmt, &locs[*li], &gmap1, &pal_s)).ok().flatten();
+                        let e2 = catch(|| events(&sf2, *new2, fmt, &locs[*li], &gmap_s, &pal2)).ok().flatten();
+                        if e1m != e2 {
+                            bad.push(format!("glyph {new}->{new2} fmt=v{} loc={li}: {:?} -> {:?}", 1 - fi, e1m, e2));
+                        }
+                        let _ = e1;
+                    }
+                    s.oracle("colr-resubset-events-unchanged", bad.is_empty(), || input.clone(), || bad.iter().take(3).cloned().collect::<Vec<_>>().join("\n"));
+                }
+            }
+            Ok(Shot { result: Err(e), .. }) => s.oracle("colr-resubset-events-unchanged", false, || input.clone(), || format!("re-subsetting returned {e}")),
+            Err((m, file)) => s.oracle("colr-resubset-events-unchanged", false, || input.clone(), || format!("re-subsetting panicked: {m} in {file}")),
+        }
+    }
+}
+
+// ---------------------------------------------------------------------------------------------
+// requests
+// ---------------------------------------------------------------------------------------------
+
+fn colour_gids(font: &FontRef) -> (Vec<u32>, Vec<u32>) {
+    let mut base = vec![];
+    let mut layer = vec![];
+    if let Ok(colr) = font.colr() {
+        if let Some(Ok(recs)) = colr.base_glyph_records() {
+            base.extend(recs.iter().map(|r| r.glyph_id().to_u32()));
+        }
+        if let Some(Ok(recs)) = colr.layer_records() {
+            layer.extend(recs.iter().map(|r| r.glyph_id().to_u32()));
+        }
+        if let Some(Ok(l)) = colr.base_glyph_list() {
+            base.extend(l.base_glyph_paint_records().iter().map(|r| r.glyph_id().to_u32()));
+        }
+    }
+    base.sort();
+    base.dedup();
+    layer.sort();
+    layer.dedup();
+    (base, layer)
+}
+
+fn rand_flags(r: &mut Rng) -> u16 {
+    let mut f = 0;
+    if r.chance(1, 3) {
+        f |= F_RETAIN_GIDS;
+    }
+    if r.chance(1, 4) {
+        f |= F_NOTDEF_OUTLINE;
+    }
+    f
+}
+
+fn rand_req(r: &mut Rng, n: usize, base: &[u32], layer: &[u32], cmap: &[(u32, u32)]) -> Req {
+    let mut gids: Vec<u32> = vec![];
+    let mut unicodes: Vec<u32> = vec![];
+    match r.below(8) {
+        0 if !base.is_empty() => gids.push(*r.pick(base)),
+        1 => gids = (0..n as u32).collect(),
+        2 => gids = (0..n as u32).step_by(2).collect(),
+        3 if !layer.is_empty() => {
+            // layer glyphs only, none of them a base glyph
+            gids = layer.iter().copied().filter(|g| !base.contains(g)).take(1 + r.below(4) as usize).collect();
+        }
+        4 if !cmap.is_empty() => {
+            for _ in 0..r.range(1, 4) {
+                unicodes.push(r.pick(cmap).0);
+            }
+        }
+        5 if !base.is_empty() => {
+            for _ in 0..r.range(2, 6) {
+                gids.push(*r.pick(base));
+            }
+        }
+        _ => {
+            for _ in 0..r.range(1, 8) {
+                gids.push(r.below(n as u64) as u32);
+            }
+            if !base.is_empty() && r.chance(1, 2) {
+                gids.push(*r.pick(base));
+            }
+        }
+    }
+    gids.sort();
+    gids.dedup();
+    unicodes.sort();
+    unicodes.dedup();
+    Req { gids, unicodes, flags: rand_flags(r) }
+}
+
+fn run_font(s: &mut Session, r: &mut Rng, label: &str, data: &[u8], nreq: usize, trust: Trust, corr: bool) {
+    let Ok(font) = FontRef::new(data) else { return };
+    let n = font.maxp().map(|m| m.num_glyphs() as usize).unwrap_or(0);
+    if n == 0 {
+        return;
+    }
+    let (base, layer) = colour_gids(&font);
+    let cmap: Vec<(u32, u32)> = font.charmap().mappings().map(|(c, g)| (c, g.to_u32())).filter(|(_, g)| base.contains(g)).collect();
+    for i in 0..nreq {
+        let req = rand_req(r, n, &base, &layer, &cmap);
+        run_request(s, label, data, &req, trust, corr, i % 3 == 0);
+    }
+}
+
+// ---------------------------------------------------------------------------------------------
+// entry point
+// ---------------------------------------------------------------------------------------------
+
+pub fn run(cfg: &Config, s: &mut Session, r: &mut Rng) {
+    let th = cfg.thorough();
+    // 1. synthetic fonts: COLR v0 + random CPAL
+    for id in 0..(if th { 400 } else { 40 }) {
+        let n = r.range(4, 30) as usize;
+        let e = r.range(1, 10) as u16;
+        let o = GenOpts { n_glyphs: n, num_entries: e, variable: false, with_dsim: false, rows: vec![], dsim_len: 0 };
+        let mut c = ColrSpec::default();
+        let mut ids: Vec<u16> = (1..n as u16).collect();
+        r.shuffle(&mut ids);
+        ids.truncate(r.range(1, (n as i64 / 2).max(1)) as usize);
+        ids.sort();
+        let plain: Vec<u16> = (0..n as u16).filter(|g| !ids.contains(g)).collect();
+        for g in ids {
+            let lo = if r.chance(1, 12) { 0 } else { 1 };
+            let nl = r.range(lo, 4) as usize;
+            let layers = (0..nl)
+                .map(|_| {
+                    // usually a plain glyph, now and then a glyph that is itself a colour glyph
+                    let lg = if r.chance(1, 40) { r.below(n as u64) as u16 } else { *r.pick(&plain) };
+                    (lg, rand_pal(r, &o))
+                })
+                .collect();
+            c.v0.push((g, layers));
+        }
+        let label = format!("syn:colr-v0#{id}");
+        let data = syn_font(&label, n, Some(colr_bytes(&c)), Some(cpal_bytes(&rand_cpal(r, e))), 0);
+        run_font(s, r, &label, &data, if th { 6 } else { 4 }, Trust::WellFormed, true);
+    }
+    // 2. synthetic fonts: COLR v1 (static and variable)
+    for id in 0..(if th { 1500 } else { 110 }) {
+        let n = r.range(6, 40) as usize;
+        let e = r.range(1, 12) as u16;
+        let variable = id % 2 == 1;
+        let with_dsim = variable && id % 4 == 3;
+        let rows: Vec<usize> = if variable { (0..r.range(1, 3)).map(|_| r.range(1, 12) as usize).collect() } else { vec![] };
+        let dsim_len = if with_dsim { r.range(1, 20) as usize } else { 0 };
+        let o = GenOpts { n_glyphs: n, num_entries: e, variable, with_dsim, rows: rows.clone(), dsim_len };
+        let mut c = rand_colr(r, &o);
+        let axes = if variable { r.range(1, 3) as u16 } else { 0 };
+        if variable {
+            c.store = Some(rand_store(r, axes, &rows));
+            if with_dsim {
+                let mut entries: Vec<u32> = (0..dsim_len)
+                    .map(|_| {
+                        if r.chance(1, 7) {
+                            0xFFFF_FFFF
+                        } else {
+                            let sidx = r.below(rows.len() as u64) as usize;
+                            ((sidx as u32) << 16) | r.below(rows[sidx] as u64) as u32
+                        }
+                    })
+                    .collect();
+                // a run of equal entries at the end (map count trimming)
+                if r.chance(1, 2) && entries.len() > 2 {
+                    let l = *entries.last().unwrap();
+                    let k = entries.len();
+                    entries[k - 2] = l;
+                }
+                c.dsim = Some(entries);
+            }
+        }
+        let label = format!("syn:colr-v1{}#{id}", if with_dsim { "-dsim" } else if variable { "-var" } else { "" });
+        let data = syn_font(&label, n, Some(colr_bytes(&c)), Some(cpal_bytes(&rand_cpal(r, e))), axes);
+        run_font(s, r, &label, &data, if th { 6 } else { 4 }, Trust::WellFormed, true);
+    }
+    // 3. corpus
+    let corpus = [
+        "/repo/font-test-data/test_data/ttf/test_glyphs-glyf_colr_1.ttf",
+        "/repo/font-test-data/test_data/ttf/test_glyphs-glyf_colr_1_variable.ttf",
+        "/repo/font-test-data/test_data/ttf/test_glyphs-glyf_colr_1_no_cliplist.subset.ttf",
+        "/repo/font-test-data/test_data/ttf/linear_gradient_rect_colr_1.ttf",
+        "/repo/klippa/test-data/fonts/TwemojiMozilla.subset.ttf",
+        "/repo/klippa/test-data/fonts/BungeeColor-Regular.ttf",
+        "/repo/klippa/test-data/fonts/Foldit.ttf",
+        "/repo/klippa/test-data/fonts/TestCOLRv1.ttf",
+        "/repo/klippa/test-data/fonts/colr-table.ttf",
+    ];
+    for p in corpus {
+        let Ok(data) = std::fs::read(p) else {
+            s.count("colr:corpus-missing");
+            continue;
+        };
+        let label = format!("corpus:{}", p.rsplit('/').next().unwrap());
+        s.count("colr:corpus-fonts");
+        // regression inputs of the earlier rounds (fixes 9be19c4, bf538d7, 634af31, 409a0cf)
+        if label.ends_with("glyf_colr_1_variable.ttf") {
+            let regs = [
+                Req { gids: vec![24, 66, 67, 70, 187, 188], unicodes: vec![0xf0227, 0xf0a18, 0xf1305], flags: 0x51 },
+                Req { gids: vec![10, 52], unicodes: vec![], flags: 0xc2 },
+                Req { gids: vec![24, 66, 67, 70, 187, 188], unicodes: vec![], flags: 0x51 },
+                Req { gids: vec![179], unicodes: vec![], flags: 0x43 },
+                Req { gids: vec![156], unicodes: vec![], flags: 0x02 },
+            ];
+            for q in &regs {
+                run_request(s, &label, &data, q, Trust::WellFormed, true, true);
+            }
+        }
+        run_font(s, r, &label, &data, if th { 40 } else { 6 }, Trust::WellFormed, true);
+    }
+}
